@@ -88,6 +88,47 @@ def shared_counters(ctx, rule):
 
 
 
+def version_change_rules(ctx, rule):
+    """shared with C08 (R-C08.7: "commit applies ... all at once")"""
+    F = ctx.F
+    # ---- R-C06.6 nothing raises the visible counter past a batch that is still being applied.
+    # Every lsm-tree entry point that installs a new tree version draws a seqno from the SHARED generator and raises the
+    # SHARED visible counter to it (SuperVersions::upgrade_version: `visible_seqno.fetch_max(seqno.next() + 1)`; thorough
+    # tier re-derives this table from lsm-tree's own MIR). A batch draws its seqno and applies its items under the journal
+    # lock (R-C14.1). So such an entry point may only be called while the journal lock is held, or before the database is
+    # shared (recovery / creation). (keyspaces.write is NOT enough: a batch takes keyspaces.read only after drawing its seqno.)
+    VERSION_CHANGING = VERSION_CHANGING_TABLE
+    NOT_SHARED_YET = ("db::Database::recover", "db::Database::create_new", "recovery::recover_sealed_memtables", "recovery::recover_keyspaces")
+    nvc = 0
+    for fid, fn in sorted(F.fns.items()):
+        if fid in NOT_SHARED_YET:
+            continue
+        for b, t in fn.calls():
+            n = A.cname(t)
+            leaf = n.rsplit("::", 1)[-1]
+            is_tree = ("AbstractTree" in n and leaf in VERSION_CHANGING) or (leaf == "finish" and "Ingestion" in n and n.startswith("lsm_tree::"))
+            # a direct raise of the visible counter that is not SnapshotTracker::publish (whose callers R-C06.1 / R-C14.1 cover)
+            if n == "lsm_tree::SequenceNumberCounter::fetch_max" and fid != R.PUBLISH and fid != "snapshot_tracker::SnapshotTracker::set":
+                recv = ctx.og(fn).of_operand(t["args"][0])
+                if any(x.k == "field" and x.a[1] == "visible_seqno" for x in A.walk(recv)):
+                    is_tree = True
+                    leaf = "visible_seqno.fetch_max"
+            if not is_tree:
+                continue
+            nvc += 1
+            ctx.count_sites()
+            held = None
+            for g in R.j_guards(ctx, fn):
+                if A.must_held_at(fn, g, b)[0]:
+                    held = "the journal lock"
+            ctx.ob(rule, fn, "version-change-%s-excluded-from-in-flight-batches" % leaf, held is not None,
+                   "tree.%s (new tree version: raises the shared visible counter) is called under %s" % (leaf, held) if held
+                   else "tree.%s installs a new tree version — lsm-tree draws a seqno from the shared generator and raises the shared visible counter to it — without the journal lock: when it completes between two applies of a batch that drew its seqno earlier, a snapshot opened now sees the applied half of the batch" % leaf,
+                   fn.loc(b))
+    ctx.floor(rule, "version-changing lsm-tree calls outside recovery", nvc, 8)
+
+
+
 def run(ctx):
     F = ctx.F
     entries = R.write_entries(ctx)
@@ -193,42 +234,7 @@ def run(ctx):
     ctx.floor("R-C06.5", "multi-key tree reads outside the meta keyspace", nscan, 12)
     C05.view_delegation(ctx, "R-C06.5")
 
-    # ---- R-C06.6 nothing raises the visible counter past a batch that is still being applied.
-    # Every lsm-tree entry point that installs a new tree version draws a seqno from the SHARED generator and raises the
-    # SHARED visible counter to it (SuperVersions::upgrade_version: `visible_seqno.fetch_max(seqno.next() + 1)`; thorough
-    # tier re-derives this table from lsm-tree's own MIR). A batch draws its seqno and applies its items under the journal
-    # lock (R-C14.1). So such an entry point may only be called while the journal lock is held, or before the database is
-    # shared (recovery / creation). (keyspaces.write is NOT enough: a batch takes keyspaces.read only after drawing its seqno.)
-    VERSION_CHANGING = VERSION_CHANGING_TABLE
-    NOT_SHARED_YET = ("db::Database::recover", "db::Database::create_new", "recovery::recover_sealed_memtables", "recovery::recover_keyspaces")
-    nvc = 0
-    for fid, fn in sorted(F.fns.items()):
-        if fid in NOT_SHARED_YET:
-            continue
-        for b, t in fn.calls():
-            n = A.cname(t)
-            leaf = n.rsplit("::", 1)[-1]
-            is_tree = ("AbstractTree" in n and leaf in VERSION_CHANGING) or (leaf == "finish" and "Ingestion" in n and n.startswith("lsm_tree::"))
-            # a direct raise of the visible counter that is not SnapshotTracker::publish (whose callers R-C06.1 / R-C14.1 cover)
-            if n == "lsm_tree::SequenceNumberCounter::fetch_max" and fid != R.PUBLISH and fid != "snapshot_tracker::SnapshotTracker::set":
-                recv = ctx.og(fn).of_operand(t["args"][0])
-                if any(x.k == "field" and x.a[1] == "visible_seqno" for x in A.walk(recv)):
-                    is_tree = True
-                    leaf = "visible_seqno.fetch_max"
-            if not is_tree:
-                continue
-            nvc += 1
-            ctx.count_sites()
-            held = None
-            for g in R.j_guards(ctx, fn):
-                if A.must_held_at(fn, g, b)[0]:
-                    held = "the journal lock"
-            ctx.ob("R-C06.6", fn, "version-change-%s-excluded-from-in-flight-batches" % leaf, held is not None,
-                   "tree.%s (new tree version: raises the shared visible counter) is called under %s" % (leaf, held) if held
-                   else "tree.%s installs a new tree version — lsm-tree draws a seqno from the shared generator and raises the shared visible counter to it — without the journal lock: when it completes between two applies of a batch that drew its seqno earlier, a snapshot opened now sees the applied half of the batch" % leaf,
-                   fn.loc(b))
-    ctx.floor("R-C06.6", "version-changing lsm-tree calls outside recovery", nvc, 8)
-
+    version_change_rules(ctx, "R-C06.6")
 
 
 def cross(ctx, D):
